@@ -70,22 +70,18 @@ def run(ctx):
             continue
         n += 1
         ctx.ob("R16.1", b, "has-fill-guard", len(m.guards) >= 1, d_loc(b))
-        for sb, tg in sorted(m.guards.items()):
-            for tgt, (op, val, l, r) in tg.items():
-                ll = deep_leaves(ctx, b, l, 3)
-                rl = deep_leaves(ctx, b, r, 3)
-                running = ("field", counter) in ll
-                parked = any(x[0] == "call" and re.search(r"BinaryHeap::<.*>::len$", x[1] or "") for x in ll)
-                cap = any(x[0] == "call" and (x[1] or "").endswith("::capacity") for x in rl)
-                ctx.ob("R16.1", b, "guard-counts-running-and-parked", running and parked and cap and op == "Lt", b.loc(sb),
-                       "lhs depends on running counter %s: %s; on parked heap length: %s; rhs capacity: %s" % (counter, running, parked, cap))
-                break
-        # the observer the guard calls must be exactly running-count + parked-count (no clamping / scaling)
-        for sb, tg in sorted(m.guards.items()):
-            for tgt, (op, val, l, r) in tg.items():
-                ok, det = exact_sum_observer(ctx, l, counter)
-                ctx.ob("R16.1", b, "guard-lhs-is-exactly-running+parked", ok, b.loc(sb), det)
-                break
+        for sb, safe, sat, det in m.guard_semantics(True, safety_counts_parked=True):
+            gi = m.guard_info[sb]
+            if safe is None:
+                sh = gi["shape"]
+                ok, d2 = (False, "guard has no closed form and is not a comparison")
+                if sh and sh[0] == "Lt" and gi["pull_val"] is True:
+                    ok, d2 = exact_sum_observer(ctx, sh[1], counter)
+                    ok = ok and sh[2][0] == "call" and (sh[2][1] or "").endswith("::capacity")
+                ctx.ob("R16.1", b, "guard-lhs-is-exactly-running+parked", ok, b.loc(sb), "shape rule: " + d2)
+                continue
+            ctx.ob("R16.1", b, "guard-counts-running-and-parked", safe, b.loc(sb),
+                   "finite-grid entailment: a pull is admitted only when running + parked < capacity; " + det)
         bad = []
         npush = 0
         for path, ev in m.all_event_paths(3):
